@@ -30,7 +30,7 @@ from .. import core, engine_p0, workload, world
 
 ID = "C08"
 LEVEL = "exploration"
-MAIN_CLAUSES = ["shape", "reference", "ramp_structure", "delay_shift", "scaling", "scaling_others_unchanged",
+MAIN_CLAUSES = ["prepared_inputs_unchanged", "shape", "reference", "ramp_structure", "delay_shift", "scaling", "scaling_others_unchanged",
                 "calendar_onehot", "year_block_step", "rounds_keep_supplies"]
 P_SLICE_EVERY = 8  # every 8th history is an engine-P history (full three-round runs) for the rounds clause
 RULE = (
@@ -620,6 +620,8 @@ def generate(seed, h, tier):
     for fam in ("crop", "grass"):
         j, rec = engine_p0.step_probe(pr, fam)
         hb.probe(hb.add(j), rec)
+    # schedule: in ~30 % of the histories every scenario is prepared before any is computed
+    hb.spec["interleave"] = rng.sub("schedule").chance(0.3)
     return hb.spec
 
 
